@@ -47,6 +47,16 @@ type Case struct {
 	// reflect_port is set to the port of a second listener that serves ONLY reflection ("If your reflection service is
 	// located on a port other than the main server", docs/eng/grpc-generator.md); the service is on the target port
 	ReflectPort bool `json:"reflect_port,omitempty"`
+	// Passes: how often the provider goes through the file (0 = 1); every pass must reach the server like the first,
+	// also when the provider's ammo objects have been released and handed out again meanwhile
+	Passes int `json:"passes,omitempty"`
+}
+
+func (c Case) passes() int {
+	if c.Passes < 1 {
+		return 1
+	}
+	return c.Passes
 }
 
 // clients is the number of shared clients the case's configuration asks for.
@@ -229,6 +239,14 @@ func genCase(t *rapid.T) Case {
 		c.ClientNumber = rapid.SampledFrom([]int{-1, 1, 2, 2, 3}).Draw(t, "clientNumber")
 	}
 	c.ReflectPort = rapid.IntRange(0, 4).Draw(t, "reflectPort") < 2
+	// several passes (never with stalling entries: every stalled call costs its full timeout)
+	stalling := false
+	for _, e := range c.Entries {
+		stalling = stalling || e.Stall
+	}
+	if !stalling && rapid.IntRange(0, 2).Draw(t, "severalPasses") == 0 {
+		c.Passes = rapid.IntRange(2, 3).Draw(t, "passes")
+	}
 	return c
 }
 
@@ -287,9 +305,9 @@ func check(c Case, o *vf.Obs) error {
 	}
 	pool := map[string]any{
 		"id": "p", "gun": gun,
-		"ammo":    map[string]any{"type": "grpc/json", "file": name, "passes": 1},
+		"ammo":    map[string]any{"type": "grpc/json", "file": name, "passes": c.passes()},
 		"result":  map[string]any{"type": "phout", "destination": out},
-		"rps":     map[string]any{"type": "once", "times": len(c.Entries) + 5},
+		"rps":     map[string]any{"type": "once", "times": len(c.Entries)*c.passes() + 5},
 		"startup": map[string]any{"type": "once", "times": c.Instances},
 	}
 	var conf engine.Config
@@ -325,10 +343,15 @@ func check(c Case, o *vf.Obs) error {
 		p, _ := strconv.Atoi(f[11])
 		protoByTag[f[1]] = append(protoByTag[f[1]], p)
 	}
-	clientTimeout := map[int]bool{} // valid entries whose one sample says 504
+	P := c.passes()
+	clientTimeout := map[int]int{} // valid entries: how many of their samples say 504
 	for i, e := range c.Entries {
-		if ps := protoByTag[fmt.Sprintf("e%d", i)]; e.Invalid == "" && len(ps) == 1 && ps[0] == 504 {
-			clientTimeout[i] = true
+		if ps := protoByTag[fmt.Sprintf("e%d", i)]; e.Invalid == "" && len(ps) == P {
+			for _, p := range ps {
+				if p == 504 {
+					clientTimeout[i]++
+				}
+			}
 		}
 	}
 	timedOutUnseen := 0
@@ -370,33 +393,32 @@ func check(c Case, o *vf.Obs) error {
 		if err := protojson.Unmarshal([]byte(e.Payload), want); err != nil {
 			return fmt.Errorf("harness: reference parse of a payload meant to be valid failed: %v (%s)", err, e.Payload)
 		}
-		if len(got) == 0 && clientTimeout[i] {
-			// the call ended by its own timeout on the client before the server saw it (a busy machine): the
+		if len(got) < P && len(got)+clientTimeout[i] >= P {
+			// calls ended by their own timeout on the client before the server saw them (a busy machine): the
 			// property's "within the configured timeout" is not violated by that; counted, and bounded below
-			timedOutUnseen++
-			continue
+			timedOutUnseen += P - len(got)
+		} else if len(got) != P {
+			return fmt.Errorf("entry %d (%s %s): the server received %d calls, expected exactly %d (passes: %d)", i, e.Method, e.Payload, len(got), P, P)
 		}
-		if len(got) != 1 {
-			return fmt.Errorf("entry %d (%s %s): the server received %d calls, expected exactly one", i, e.Method, e.Payload, len(got))
-		}
-		call := got[0]
-		if call.Method != e.Method {
-			return fmt.Errorf("entry %d names method %s, the server got a call to %s", i, e.Method, call.Method)
-		}
-		if !proto.Equal(call.Req, want) {
-			return fmt.Errorf("entry %d (%s): server received %v, the payload %s means %v", i, e.Method, call.Req, e.Payload, want)
-		}
-		for k, v := range e.Metadata {
-			vals := call.MD.Get(k)
-			if len(vals) != 1 || vals[0] != v {
-				return fmt.Errorf("entry %d: metadata %s = %q at the server, ammo says %q", i, k, vals, v)
+		for _, call := range got {
+			if call.Method != e.Method {
+				return fmt.Errorf("entry %d names method %s, the server got a call to %s", i, e.Method, call.Method)
 			}
-		}
-		if !call.HasDeadline {
-			return fmt.Errorf("entry %d: call arrived without a deadline although timeout is %dms", i, c.TimeoutMs)
-		}
-		if call.Timeout > time.Duration(c.TimeoutMs)*time.Millisecond {
-			return fmt.Errorf("entry %d: call arrived with %v left until its deadline, configured timeout is %dms", i, call.Timeout, c.TimeoutMs)
+			if !proto.Equal(call.Req, want) {
+				return fmt.Errorf("entry %d (%s): server received %v, the payload %s means %v", i, e.Method, call.Req, e.Payload, want)
+			}
+			for k, v := range e.Metadata {
+				vals := call.MD.Get(k)
+				if len(vals) != 1 || vals[0] != v {
+					return fmt.Errorf("entry %d: metadata %s = %q at the server, ammo says %q", i, k, vals, v)
+				}
+			}
+			if !call.HasDeadline {
+				return fmt.Errorf("entry %d: call arrived without a deadline although timeout is %dms", i, c.TimeoutMs)
+			}
+			if call.Timeout > time.Duration(c.TimeoutMs)*time.Millisecond {
+				return fmt.Errorf("entry %d: call arrived with %v left until its deadline, configured timeout is %dms", i, call.Timeout, c.TimeoutMs)
+			}
 		}
 		if e.Stall {
 			stalls++
@@ -404,24 +426,28 @@ func check(c Case, o *vf.Obs) error {
 	}
 	for i, e := range c.Entries {
 		ps := protoByTag[fmt.Sprintf("e%d", i)]
-		if len(ps) != 1 {
-			return fmt.Errorf("entry %d: %d samples, expected exactly one\n%s", i, len(ps), data)
+		if len(ps) != P {
+			return fmt.Errorf("entry %d: %d samples, expected exactly %d (passes: %d)\n%s", i, len(ps), P, P, data)
 		}
-		switch {
-		case e.Invalid != "":
-			if ps[0] == 200 {
-				return fmt.Errorf("entry %d is invalid (%s) but its sample reports success (200)", i, e.Invalid)
-			}
-		case e.Stall:
-			if ps[0] != 504 {
-				return fmt.Errorf("entry %d: the handler stalled beyond the %dms timeout, sample code %d, expected 504", i, c.TimeoutMs, ps[0])
-			}
-		default:
-			if ps[0] == 504 && len(byEntry[i]) == 0 {
-				break // timed out on the client before the server saw it (counted above)
-			}
-			if ps[0] != 200 {
-				return fmt.Errorf("entry %d is valid and was answered OK but its sample code is %d", i, ps[0])
+		unseen := P - len(byEntry[i])
+		for _, code := range ps {
+			switch {
+			case e.Invalid != "":
+				if code == 200 {
+					return fmt.Errorf("entry %d is invalid (%s) but its sample reports success (200)", i, e.Invalid)
+				}
+			case e.Stall:
+				if code != 504 {
+					return fmt.Errorf("entry %d: the handler stalled beyond the %dms timeout, sample code %d, expected 504", i, c.TimeoutMs, code)
+				}
+			default:
+				if code == 504 && unseen > 0 {
+					unseen-- // timed out on the client before the server saw it (counted above)
+					break
+				}
+				if code != 200 {
+					return fmt.Errorf("entry %d is valid and was answered OK but its sample code is %d", i, code)
+				}
 			}
 		}
 	}
@@ -430,7 +456,7 @@ func check(c Case, o *vf.Obs) error {
 	if limit := time.Duration(stalls)*time.Duration(c.TimeoutMs)*time.Millisecond + 5*time.Second; stalls > 0 && took > limit {
 		return fmt.Errorf("run took %v with %d stalled calls and timeout %dms (%d per instance): calls did not end by their timeout", took, stalls, c.TimeoutMs, perInst)
 	}
-	if timedOutUnseen*5 > len(c.Entries) {
+	if timedOutUnseen*5 > len(c.Entries)*P {
 		// more than a fifth of the calls never left the client within their timeout: the machine is too busy to judge
 		o.Class("inconclusive_machine_load")
 		return nil
@@ -453,6 +479,8 @@ func check(c Case, o *vf.Obs) error {
 	o.ClassIf(mdExtra, "metadata")
 	o.ClassIf(c.Long, "file_longer_than_read_ahead")
 	o.ClassIf(invalids > 0 && invalids < len(c.Entries), "invalid_mixed_with_valid")
+	o.ClassIf(P > 1, "several_passes")
+	o.ClassIf(P > 1 && len(c.Entries)*P > 140, "several_passes_beyond_the_provider_queue")
 	o.ClassIf(stalls > 0, "stalled_call")
 	o.ClassIf(c.Instances >= 2, "instances_ge_2")
 	o.ClassIf(c.SharedClient, "shared_client")
